@@ -21,7 +21,7 @@ RULE = ('case = (graph, presentation, sizes, elimination order, schedule, value 
         'attributes; orders: None, int, all permutations; schedules: every linear extension of the message dependency order of '
         'each distinct tree (generated independently of mp_order); non-trivial = model has >= 2 cliques; distinct = digest of '
         '(clique list, order, schedule, value class). states = distinct down-sets of the dependency order visited, '
-        'transitions = message sends performed by the real BP runs.')
+        'transitions = message sends performed by the real BP runs. All 1024 graphs on 5 attributes are run twice: sizes (2,3,2,2,3) and (2,36,2,36,2) (separator tables beyond 1000 cells).')
 LEVEL_TEXT = ('All executions of the real two-pass message passing are enumerated within the stated bounds: every structure, '
               'every elimination order and, per distinct junction tree, every dependency-respecting message schedule; each '
               'returned clique marginal is compared with the brute-force marginal of the normalised product. This is stateless '
